@@ -74,10 +74,14 @@ func (e *recEngine) NewDictionaryConnection(p centrifuge.DictionaryConnectionPar
 		return nil
 	}
 	plan.engineAsked.Add(1)
+	if sl := plan.Slow; sl != nil && (sl.At == "new" || sl.At == "both") {
+		// a slow engine (it loads a dictionary, say): connectCmd holds no lock while it asks
+		sl.wait("new")
+	}
 	if p.ClientFlags&centrifuge.ConnectionFlagDictionaryCompression == 0 || plan.Mode == "decline" {
 		return nil
 	}
-	dc := &recDC{e: e, user: p.UserID, id: e.next.Add(1), mode: plan.Mode, held: p.HeldDictionaryID, proto: p.ProtocolType,
+	dc := &recDC{e: e, user: p.UserID, id: e.next.Add(1), mode: plan.Mode, held: p.HeldDictionaryID, proto: p.ProtocolType, slow: plan.Slow,
 		encDelay: time.Duration(plan.EncDelayUs) * time.Microsecond, closeDelay: time.Duration(plan.CloseDelayUs) * time.Microsecond}
 	e.mu.Lock()
 	e.conns[p.UserID] = append(e.conns[p.UserID], dc)
@@ -92,6 +96,7 @@ type recDC struct {
 	mode       string
 	held       string
 	proto      centrifuge.ProtocolType
+	slow       *slowSpec
 	encDelay   time.Duration
 	closeDelay time.Duration
 
@@ -105,6 +110,9 @@ type recDC struct {
 
 func (d *recDC) Dictionary() *protocol.Dictionary {
 	d.dictionaryAsk.Add(1)
+	if sl := d.slow; sl != nil && (sl.At == "dictionary" || sl.At == "both") {
+		sl.wait("dictionary")
+	}
 	switch d.mode {
 	case "held":
 		return &protocol.Dictionary{Id: d.held}
@@ -167,6 +175,30 @@ func (d *recDC) Close() {
 // ---------------------------------------------------------------------------------------------
 // plan of one connection (all PRNG choices are made before anything runs)
 
+// slowSpec makes the engine slow for one connection: NewDictionaryConnection and/or Dictionary()
+// call wait, which blocks or sleeps according to the time model of the part that uses it (part 2:
+// real time, a gate that opens when the raw client has seen the connection end, or a short real
+// sleep; part 3: a virtual sleep inside the bubble - connectCmd holds no mutex around these calls).
+type slowSpec struct {
+	At      string // new | dictionary | both: which engine call is slow
+	Variant string // part 2: until_close | short
+	ShortUs int    // part 2, variant short: real sleep inside the engine call
+
+	wait func(where string)
+
+	entered     atomic.Int32
+	landed      atomic.Bool // the close was observed while the engine call was still blocked
+	gateTimeout atomic.Bool
+	closeSeen   chan struct{}
+	closeOnce   sync.Once
+}
+
+func (sl *slowSpec) sawClose() {
+	if sl != nil && sl.closeSeen != nil {
+		sl.closeOnce.Do(func() { close(sl.closeSeen) })
+	}
+}
+
 type wsStep struct {
 	Op string
 	N  int
@@ -191,7 +223,10 @@ type wsPlan struct {
 	End               string
 	EncDelayUs        int
 	CloseDelayUs      int
+	Slow              *slowSpec
 
+	node          *centrifuge.Node
+	url           string
 	engineAsked   atomic.Int32
 	client        atomic.Pointer[centrifuge.Client]
 	onDisconnect  atomic.Int32
@@ -207,32 +242,31 @@ type wireFrame struct {
 
 type p2 struct {
 	c      *kit.Case
-	node   *centrifuge.Node
 	eng    *recEngine
 	plans  []*wsPlan
 	byUser map[string]*wsPlan
 	pubSeq atomic.Int64
 }
 
-func (s *p2) publish(ch string) {
+func (s *p2) publish(p *wsPlan) {
 	n := s.pubSeq.Add(1)
-	_, _ = s.node.Publish(ch, []byte(fmt.Sprintf(`{"n":%d}`, n)))
+	_, _ = p.node.Publish(p.Channel, []byte(fmt.Sprintf(`{"n":%d}`, n)))
 }
 
 func (s *p2) doOp(op string, p *wsPlan) {
 	switch op {
 	case "send":
-		for _, cl := range s.node.Hub().UserConnections(p.User) {
+		for _, cl := range p.node.Hub().UserConnections(p.User) {
 			_ = cl.Send([]byte(`{"racer":"send"}`))
 		}
 	case "publish":
-		s.publish(p.Channel)
+		s.publish(p)
 	case "nsub":
-		_ = s.node.Subscribe(p.User, p.Channel+":x")
+		_ = p.node.Subscribe(p.User, p.Channel+":x")
 	case "refresh":
-		_ = s.node.Refresh(p.User, centrifuge.WithRefreshExpireAt(time.Now().Unix()+3600))
+		_ = p.node.Refresh(p.User, centrifuge.WithRefreshExpireAt(time.Now().Unix()+3600))
 	case "disconnect":
-		_ = s.node.Disconnect(p.User)
+		_ = p.node.Disconnect(p.User)
 	}
 }
 
@@ -306,12 +340,54 @@ func runPart2(c *kit.Case) {
 		s.byUser[p.User] = p
 		eng.plans[p.User] = p
 	}
+	// Slow-engine connections (drawn after everything else, so the plans above are what they were
+	// before these existed). They live on a second node whose stale-connection delay is short: the
+	// real WebSocket handler processes the connect command on the goroutine that owns the read loop
+	// (ProcessCommandsOffReadLoop waits for the hand-off too), so while the engine call is blocked
+	// the only close that can land is the stale-connection timer's.
+	staleMs := kit.Pick(r, []int{20, 30, 50})
+	for i, n := 0, r.Range(0, 2); i < n; i++ {
+		p := &wsPlan{Idx: nConn + i, User: fmt.Sprintf("s%d", i), Name: fmt.Sprintf("slow%d", i)}
+		p.Proto = kit.Pick(r, []string{"json", "json", "protobuf"})
+		p.Advertise = !r.Chance(1, 10)
+		p.Mode = kit.Pick(r, []string{"normal", "normal", "normal", "held", "held", "decline", "unheld"})
+		p.Channel = fmt.Sprintf("c11:s%d", i)
+		p.EncDelayUs = kit.Pick(r, []int{0, 0, 50, 300})
+		p.CloseDelayUs = kit.Pick(r, []int{0, 100, 300})
+		p.Slow = &slowSpec{At: kit.Pick(r, []string{"new", "new", "dictionary", "both"}), Variant: kit.Pick(r, []string{"until_close", "until_close", "short"}), closeSeen: make(chan struct{})}
+		// short: sometimes well below, sometimes around the stale delay (a natural race)
+		p.Slow.ShortUs = kit.Pick(r, []int{200, 1000, 5000, staleMs*1000 - 2000, staleMs * 1000, staleMs*1000 + 3000})
+		for j, n := 0, r.Range(1, 5); j < n; j++ {
+			p.Script = append(p.Script, kit.Pick(r, []wsStep{{Op: "pub", N: 2}, {Op: "send"}, {Op: "cmd_ping", N: 2}, {Op: "cmd_rpc", N: 1}}))
+		}
+		p.End = endStaleInEngine
+		if p.Slow.Variant == "short" {
+			p.End = kit.Pick(r, []string{"server_node_disconnect", "server_client_disconnect", "client_close"})
+		}
+		sl := p.Slow
+		sl.wait = func(string) {
+			sl.entered.Add(1)
+			if sl.Variant == "short" {
+				time.Sleep(time.Duration(sl.ShortUs) * time.Microsecond)
+				return
+			}
+			select {
+			case <-sl.closeSeen:
+				sl.landed.Store(true)
+			case <-time.After(20 * time.Second):
+				sl.gateTimeout.Store(true)
+			}
+		}
+		s.plans = append(s.plans, p)
+		s.byUser[p.User] = p
+		eng.plans[p.User] = p
+	}
 	byName := map[string]*wsPlan{}
 	for _, p := range s.plans {
 		byName[p.Name] = p
 	}
 
-	node, _ := w.NewNode(centrifuge.Config{DictionaryCompression: eng}, func(n *centrifuge.Node) {
+	setup := func(n *centrifuge.Node) {
 		n.OnConnecting(func(_ context.Context, e centrifuge.ConnectEvent) (centrifuge.ConnectReply, error) {
 			p := byName[e.Name]
 			if p == nil {
@@ -344,8 +420,9 @@ func runPart2(c *kit.Case) {
 				p.onDisconnect.Add(1)
 			})
 		})
-	})
-	s.node = node
+	}
+	node, _ := w.NewNode(centrifuge.Config{DictionaryCompression: eng}, setup)
+	slowNode, _ := w.NewNode(centrifuge.Config{DictionaryCompression: eng, ClientStaleCloseDelay: time.Duration(staleMs) * time.Millisecond}, setup)
 	kit.SetHook(node, func(point string, cl *centrifuge.Client, _ string) {
 		if point != "connect.afterAddClient" || cl == nil {
 			return
@@ -362,14 +439,26 @@ func runPart2(c *kit.Case) {
 	}))
 	srv := httptest.NewServer(mux)
 	url := "ws" + strings.TrimPrefix(srv.URL, "http") + "/ws"
+	slowMux := http.NewServeMux()
+	slowMux.Handle("/ws", centrifuge.NewWebsocketHandler(slowNode, centrifuge.WebsocketConfig{
+		PingPongConfig:             centrifuge.PingPongConfig{PingInterval: 10 * time.Minute, PongTimeout: time.Minute},
+		ProcessCommandsOffReadLoop: offReadLoop,
+	}))
+	slowSrv := httptest.NewServer(slowMux)
+	for _, p := range s.plans {
+		p.node, p.url = node, url
+		if p.Slow != nil {
+			p.node, p.url = slowNode, "ws"+strings.TrimPrefix(slowSrv.URL, "http")+"/ws"
+		}
+	}
 
-	results := make([]*connResult, nConn)
+	results := make([]*connResult, len(s.plans))
 	var wg sync.WaitGroup
 	for i, p := range s.plans {
 		wg.Add(1)
 		go func(i int, p *wsPlan) {
 			defer wg.Done()
-			results[i] = s.runConn(url, p)
+			results[i] = s.runConn(p)
 		}(i, p)
 	}
 	wg.Wait()
@@ -377,6 +466,8 @@ func runPart2(c *kit.Case) {
 	time.Sleep(2 * time.Millisecond)
 	srv.CloseClientConnections()
 	srv.Close()
+	slowSrv.CloseClientConnections()
+	slowSrv.Close()
 	w.Shutdown()
 
 	var sigs []string
@@ -422,13 +513,16 @@ func encodeCmd(proto string, cmd *protocol.Command) (int, []byte) {
 
 const connectCmdID = 41
 
-func (s *p2) runConn(url string, p *wsPlan) *connResult {
+// how a slow-engine connection of variant until_close ends
+const endStaleInEngine = "stale_close_during_engine_call"
+
+func (s *p2) runConn(p *wsPlan) *connResult {
 	res := &connResult{}
 	d := &websocket.Dialer{HandshakeTimeout: 45 * time.Second}
 	if p.Proto == "protobuf" {
 		d.Subprotocols = []string{"centrifuge-protobuf"}
 	}
-	conn, resp, _, err := d.Dial(url, nil)
+	conn, resp, _, err := d.Dial(p.url, nil)
 	if err != nil {
 		res.inconclusive = "dial failed: " + err.Error()
 		return res
@@ -454,7 +548,7 @@ func (s *p2) runConn(url string, p *wsPlan) *connResult {
 		go func() {
 			defer raceWG.Done()
 			// wait (bounded) until the client is registered, then a PRNG-chosen moment later
-			inHub := waitUntil(func() bool { return len(s.node.Hub().UserConnections(p.User)) > 0 }, 10*time.Second)
+			inHub := waitUntil(func() bool { return len(p.node.Hub().UserConnections(p.User)) > 0 }, 10*time.Second)
 			if !inHub {
 				return
 			}
@@ -487,6 +581,9 @@ func (s *p2) runConn(url string, p *wsPlan) *connResult {
 			mt, msg, err := conn.ReadMessage()
 			if err != nil {
 				res.readErr = err
+				// Client.close writes the close frame (transport.Close) after CloseDictionaryCompression:
+				// a slow engine call that is still blocked now returns into a close() that is past it
+				p.Slow.sawClose()
 				var ce *websocket.CloseError
 				if errors.As(err, &ce) {
 					res.closeCode = ce.Code
@@ -543,7 +640,7 @@ func (s *p2) runConn(url string, p *wsPlan) *connResult {
 		switch st.Op {
 		case "pub":
 			for i := 0; i < st.N; i++ {
-				s.publish(p.Channel)
+				s.publish(p)
 			}
 		case "send":
 			s.doOp("send", p)
@@ -575,7 +672,7 @@ func (s *p2) runConn(url string, p *wsPlan) *connResult {
 				defer bw.Done()
 				for i := 0; i < 25; i++ {
 					if g == 0 {
-						s.publish(p.Channel)
+						s.publish(p)
 					} else {
 						s.doOp("send", p)
 						nextIDLocal := uint32(10000 + i)
@@ -590,17 +687,17 @@ func (s *p2) runConn(url string, p *wsPlan) *connResult {
 
 	switch p.End {
 	case "server_node_disconnect":
-		_ = s.node.Disconnect(p.User)
+		_ = p.node.Disconnect(p.User)
 	case "server_client_disconnect":
 		if cl := p.client.Load(); cl != nil {
 			cl.Disconnect(centrifuge.DisconnectForceReconnect)
 		} else {
-			_ = s.node.Disconnect(p.User)
+			_ = p.node.Disconnect(p.User)
 		}
 	case "disconnect_during_burst":
 		bw := burst()
 		time.Sleep(time.Duration(p.RaceDelayUs) * time.Microsecond)
-		_ = s.node.Disconnect(p.User)
+		_ = p.node.Disconnect(p.User)
 		bw.Wait()
 	case "client_close_during_burst":
 		bw := burst()
@@ -611,7 +708,14 @@ func (s *p2) runConn(url string, p *wsPlan) *connResult {
 		_ = conn.NetConn().Close()
 	case "disconnect_during_connect":
 		// already issued by the racing operation; if it did not hit, end the connection now
-		_ = s.node.Disconnect(p.User)
+		_ = p.node.Disconnect(p.User)
+	case endStaleInEngine:
+		// the stale-connection timer of the slow-engine node ends this connection while the engine
+		// call is blocked; the gate opens when this client has read the close. If the connection
+		// got through nevertheless (the gate timed out), end it.
+		if alive() {
+			_ = p.node.Disconnect(p.User)
+		}
 	}
 	select {
 	case <-readDone:
@@ -625,7 +729,7 @@ func (s *p2) runConn(url string, p *wsPlan) *connResult {
 
 // awaitServerSideEnd waits (bounded) until the server side of the connection is known to be over.
 func (s *p2) awaitServerSideEnd(p *wsPlan, res *connResult) {
-	gone := waitUntil(func() bool { return len(s.node.Hub().UserConnections(p.User)) == 0 }, 45*time.Second)
+	gone := waitUntil(func() bool { return len(p.node.Hub().UserConnections(p.User)) == 0 }, 45*time.Second)
 	if !gone {
 		res.inconclusive = "client still registered in the hub after the bound"
 		return
@@ -825,6 +929,8 @@ func (s *p2) judge(p *wsPlan, res *connResult) string {
 		closed := dc.closed.Load()
 		if dc.mode == "unheld" {
 			cause = "unheld_id_refused"
+		} else if p.End == endStaleInEngine {
+			cause = endStaleInEngine
 		} else if p.End == "disconnect_during_connect" && replyIdx < 0 {
 			cause = "disconnect_during_connect"
 		} else if p.End == "disconnect_during_connect" {
@@ -874,10 +980,35 @@ func (s *p2) judge(p *wsPlan, res *connResult) string {
 	if p.raceRan.Load() && p.inHubAtRace.Load() {
 		c.Count("p2_race_op_ran_in_connect_window_"+p.RaceOp, 1)
 	}
+	if sl := p.Slow; sl != nil {
+		// coverage of the slow-engine situations (the verdict is the lifecycle oracle above)
+		c.Count("p2_slow_engine_connections_"+sl.Variant, 1)
+		if sl.entered.Load() > 0 {
+			c.Count("p2_slow_engine_call_entered_at_"+sl.At, 1)
+		}
+		if sl.gateTimeout.Load() {
+			c.Inconclusive(fmt.Sprintf("part 2 connection %d: the slow engine call was not released by a close within the bound", p.Idx))
+		}
+		if sl.landed.Load() {
+			// the raw client had read the connection's end while NewDictionaryConnection / Dictionary()
+			// was still blocked: close() was past CloseDictionaryCompression before the encoder existed
+			c.Count("p2_slow_engine_close_landed_during_engine_call_stale_timer", 1)
+			if dc != nil {
+				c.Count("p2_slow_engine_encoder_handed_over_after_close_had_finished", 1)
+				if dc.closed.Load() == 1 {
+					c.Count("p2_slow_engine_encoder_handed_over_after_close_closed_once", 1)
+				}
+			}
+		}
+	}
 	if c.Index < 64 {
 		c.Sample(map[string]any{"part": 2, "plan": p, "frames": len(res.frames), "message_kinds": head(allKinds, 8), "negotiated": negotiated, "ended_by": cause})
 	}
-	return fmt.Sprintf("%s:%s:adv%v:rwq%v:first=%s:race=%s:end=%s:neg%v", p.Proto, p.Mode, p.Advertise, p.ReplyWithoutQueue, firstKind, p.RaceOp, cause, negotiated)
+	slow := ""
+	if sl := p.Slow; sl != nil {
+		slow = fmt.Sprintf(":slow=%s/%s/landed%v", sl.At, sl.Variant, sl.landed.Load())
+	}
+	return fmt.Sprintf("%s:%s:adv%v:rwq%v:first=%s:race=%s:end=%s:neg%v%s", p.Proto, p.Mode, p.Advertise, p.ReplyWithoutQueue, firstKind, p.RaceOp, cause, negotiated, slow)
 }
 
 func head(xs []string, n int) []string {
